@@ -56,6 +56,8 @@ def gen(rng, idx, tier):
             else:
                 dump.append(rng.choice(IDS[p]))
         cfg = {"dump_pgns": dump, "build_network_map": rng.random() < 0.2}
+        if rng.random() < 0.3:
+            cfg["preferred_units"] = rng.choice([{"TEMPERATURE": "C"}, {"ANGLE": "deg", "SPEED": "kts"}, {"PRESSURE": "psi", "TEMPERATURE": "F"}])
         k = rng.random()
         if k < 0.25:
             cfg["exclude_pgns"] = rng.sample(pgns, min(len(pgns), rng.randrange(1, 3)))
@@ -152,7 +154,8 @@ def execute(plan):
         ls = []
         for l in plan["listeners"]:
             try:
-                d = NMEA2000Decoder(dump_to_file=l["path"], **{k: (list(x) if isinstance(x, list) else x) for k, x in l["cfg"].items()})
+                from .common import decoder_kwargs
+                d = NMEA2000Decoder(dump_to_file=l["path"], **decoder_kwargs({k: (list(x) if isinstance(x, list) else x) for k, x in l["cfg"].items()}))
             except ValueError:
                 return {"violations": [], "digest": "invalid", "stats": {"invalid_plan": 1}, "nontrivial": False, "vtime": 0.0}
             if l.get("ctx"):
